@@ -294,18 +294,25 @@ def run(tier, replay):
     c.assumptions = ["variables are distanceZ components (Jacobian term zero) at temperature 0; distance with Jacobian is not modelled here",
                      "zero-mean for a periodic 1-D variable is realised by subtracting the grid average of the per-bin mean gradients"]
     common.vbuild.ensure("plain", tools=["esim"])
-    n = 48 if tier == "quick" else 600
+    common.vbuild.ensure("asan", tools=["esim"])
+    c.use_flavour("asan")
+    n = 192 if tier == "quick" else 2400
     cases = [gen_case(c.rng, i, tier) for i in range(n)]
 
     def do(case):
-        return common.run_esim("plain", scenario(case), os.path.join(c.work, "c%d" % case["idx"]), "abf", timeout=600)
+        # every sixth case also runs under ASan+UBSan (reports are fatal)
+        flav = "asan" if case["idx"] % 6 == 0 else "plain"
+        return common.run_esim(flav, scenario(case), os.path.join(c.work, "c%d" % case["idx"]), "abf", timeout=900)
 
     res = common.pmap(do, cases)
     for case, (r, ev, sp) in zip(cases, res):
         c.count()
         cfg = [e for e in ev if e["ev"] == "config"]
         if not r["complete"] or (cfg and cfg[0]["rc"] != 0):
-            if r["sig"]:
+            rep = common.sanitizer_report(r["err"])
+            if rep:
+                c.violation("sanitizer:" + common.colvars_frame(r["err"]), rep, [sp], payload={"config": config(case)})
+            elif r["sig"]:
                 c.violation("crash:nd%d:%s" % (len(case["dims"]), case["tfm"]), "signal %s: %s" % (r["sig"], r["err"][-300:]), [sp])
             else:
                 c.inconc("case failed: %s" % ((cfg[0]["errs"] if cfg else r["err"][-200:]),))
